@@ -85,6 +85,13 @@ def _next_signature_summary(F):
             if s["k"] == "assign" and s["r"]["k"] == "agg" and s["r"].get("adt") == "std::ops::Range":
                 rng = [flow.describe(b, x, names=True) for x in s["r"]["ops"]]
     ok = stores == ["var(i)"] and rng is not None and rng[0] in ("var(index)", "deref(var(index))") and re.match(r"^Sub\(len\(var\(src\)\), K1\)(\.0)?$", rng[1]) is not None
+    if not ok and stores == ["var(i)"] and rng is None:
+        # window form: `for (i, pair) in src.windows(2).enumerate().skip(*index)` — i runs from *index over the window starts,
+        # the last of which is len - 2
+        idef = [flow.describe(b, {"l": l, "p": []}) for l in b.locals_named("i")]
+        w = re.compile(r"^next\((into_iter\()?skip\(enumerate\(windows\((arg<&\[u8\]>|deref\(arg<&\[u8\]>\)), K2\)\), (deref\()?arg<&mut usize>\)?\)\)?\)( as Some)?\.0\.0$")
+        ok = len(idef) == 1 and w.match(idef[0]) is not None
+        return ok, "stores through index: %s; window form %s" % (stores, idef)
     return ok, "stores through index: %s; loop range %s" % (stores, rng)
 
 
